@@ -90,6 +90,12 @@ def make_schedule(rng, prog):
              "return_primal_or_dual": rng.choice(["dual", "primal"])}
         if rng.random() < 0.15:
             o["dimension_reduction_heuristic"] = rng.choice(["trace", "logdet1"])
+        if rng.random() < 0.3:
+            # a solver-specific keyword (documented: "additional solver-specific arguments"), generous enough to change nothing
+            if o["solver"] == "SCS":
+                o["max_iters"] = rng.choice([20000, 50000])
+            else:
+                o["max_iter"] = rng.choice([300, 500])
         return o
 
     sched.append({"op": "solve", "opts": solve_opts()})
@@ -242,6 +248,17 @@ def run_shard(spec):
                 continue
             sts = [str(x["status"]).lower() for x in rec["inner"]]
             mode = op["opts"].get("return_primal_or_dual", "dual")
+            # the solver-specific keywords of THIS call, and nothing remembered from an earlier call, are what reaches the solver
+            named = ("wrapper", "return_primal_or_dual", "verbose", "dimension_reduction_heuristic", "eig_regularization",
+                     "tol_dimension_reduction")
+            want_kw = {k_: v_ for k_, v_ in op["opts"].items() if k_ not in named}
+            for x in rec["inner"]:
+                if "kw" in x and rec.get("wrapper_cls") in (None, "CvxpyWrapper"):
+                    counters["solver_keywords_compared"] = counters.get("solver_keywords_compared", 0) + 1
+                    if x["kw"] != want_kw and k_solve > 1:
+                        V("solver_options_of_an_earlier_solve_reach_the_solver", "solve #%d was called with the solver keywords %r, the solver "
+                          "received %r" % (k_solve, want_kw, x["kw"]), solve_index=k_solve, **wit)
+                        break
             if out[1] is None:
                 # (d) accessors behave as on a never-solved model
                 if k_solve > 1:
